@@ -21,10 +21,15 @@ class InjectedFault(Exception):
 
 
 def instrument(api):
-    """Wrap an API instance in place. Returns the log object."""
-    log = {"requests": [], "statements": 0, "fail_at": None, "executed_sql": []}
+    """Wrap an API instance in place. Returns the log object.
+    log["events"]: ordered req / set_named / drop / invalidate events of the table cache (for replay in the Lean Cache model)."""
+    log = {"requests": [], "statements": 0, "fail_at": None, "events": [], "phys": {}}
     orig_exec = api._execute_sql_against_backend
     orig_check = api.sql_to_splink_dataframe_checking_cache
+    orig_remove = api.remove_splinkdataframe_from_cache
+    cache = api._intermediate_table_cache
+    orig_invalidate = cache.invalidate_cache
+    cache_cls = type(cache)
 
     def exec_wrapper(final_sql):
         log["statements"] += 1
@@ -34,17 +39,48 @@ def instrument(api):
 
     def check_wrapper(sql, output_tablename_templated, use_cache=True):
         before = len(api._intermediate_table_cache.executed_queries)
-        df = orig_check(sql, output_tablename_templated, use_cache)
+        h = hashlib.sha256(sql.encode()).hexdigest()[:12]
+        uid = api._cache_uid
+        log["_in_request"] = True
+        try:
+            df = orig_check(sql, output_tablename_templated, use_cache)
+        finally:
+            log["_in_request"] = False
         executed = len(api._intermediate_table_cache.executed_queries) > before
-        log["requests"].append({
-            "templ": output_tablename_templated, "sql": hashlib.sha256(sql.encode()).hexdigest()[:12], "use_cache": use_cache,
-            "hit": not executed, "physical_suffix": df.physical_name[len(output_tablename_templated):] if df.physical_name.startswith(output_tablename_templated) else df.physical_name,
-            "uid": api._cache_uid,
-        })
+        if executed:
+            log["phys"][df.physical_name] = (output_tablename_templated, h, uid)
+        ev = {"k": "req", "templ": output_tablename_templated, "text": h, "use_cache": use_cache, "hit": not executed, "uid": uid, "debug": bool(api.debug_mode)}
+        log["requests"].append(ev)
+        log["events"].append(ev)
         return df
 
+    def remove_wrapper(splink_dataframe):
+        ph = splink_dataframe.physical_name
+        log["events"].append({"k": "drop", "phys": ph})
+        return orig_remove(splink_dataframe)
+
+    class LoggingCache(cache_cls):
+        def __setitem__(self, key, value):
+            super().__setitem__(key, value)
+            if key != value.physical_name:
+                log["events"].append({"k": "set_named", "templ": key, "phys": value.physical_name})
+            elif not log.get("_in_request"):
+                log["events"].append({"k": "set_phys", "phys": value.physical_name})
+
+        def __delitem__(self, key):
+            value = self.data.get(key)
+            super().__delitem__(key)
+            if value is not None and key != value.physical_name:
+                log["events"].append({"k": "forget_named", "templ": key})
+
+        def invalidate_cache(self):
+            log["events"].append({"k": "invalidate"})
+            return super().invalidate_cache()
+
+    cache.__class__ = LoggingCache
     api._execute_sql_against_backend = exec_wrapper
     api.sql_to_splink_dataframe_checking_cache = check_wrapper
+    api.remove_splinkdataframe_from_cache = remove_wrapper
     return log
 
 
@@ -215,7 +251,8 @@ def apply_op(linker, world, step, state):
         return len(gm.nodes.as_record_dict())
     if op == "invalidate":
         linker.table_management.invalidate_cache()
-        state.pop("predict", None); state.pop("cluster", None)
+        # invalidate_cache() empties the whole cache dict, registered lookup tables included (documented behaviour)
+        state.pop("predict", None); state.pop("cluster", None); state.pop("lookups", None)
         return None
     if op == "mutate_invalidate":
         row = p["new_row"]
@@ -228,7 +265,7 @@ def apply_op(linker, world, step, state):
             api.con.execute(sql)
         state.setdefault("extra_rows", []).append(row)
         linker.table_management.invalidate_cache()
-        state.pop("predict", None); state.pop("cluster", None)
+        state.pop("predict", None); state.pop("cluster", None); state.pop("lookups", None)
         return None
     if op == "delete_splink_tables":
         linker.table_management.delete_tables_created_by_splink_from_db()
